@@ -703,11 +703,20 @@ Definition url_table (t : bytes) : option (bytes -> bool) :=
   option_map (fun l s => mem_bytes s l) (untok_list t).
 
 (* HTTP variant kind ef status ct body urltab *)
+(* several Content-Type headers are written, in the case line, as one value with line feeds between
+   them (a line feed cannot occur inside a header value): HeaderMap::get returns the FIRST *)
+Fixpoint first_line (s : bytes) : bytes :=
+  match s with
+  | [] => []
+  | c :: s' => if Ascii.eqb c "010"%char then [] else c :: first_line s'
+  end.
+
 Definition run_http (ws : list bytes) : bytes :=
   match ws with
   | [_variant; kind; efk; status; ct; body; urltab] =>
       match N_of_dec status, untok_opt ct, untok_bytes body, url_table urltab with
       | Some status, Some ct, Some body, Some url_ok =>
+          let ct := option_map first_line ct in
           let use_ext := is_kw "X" efk in
           let calls := s2b " calls=1" in
           (if N.eqb status 0 then s2b "request " ++ tok_bytes body
